@@ -39,6 +39,8 @@ use chrono::{
     Timelike,
 };
 
+use std::fmt::Write;
+
 use crate::{
     function::{Arity, Function},
     Value,
@@ -122,7 +124,11 @@ pub fn date_to_string(params: &[Value]) -> NativeResult {
         [Value::String(fmt), value] => {
             let datetime = NaiveDateTime::try_from(value)?;
 
-            Ok(Value::String(datetime.format(fmt).to_string()))
+            let mut result = String::new();
+            write!(result, "{}", datetime.format(fmt))
+                .map_err(|_| NativeError::from("invalid format string"))?;
+
+            Ok(Value::String(result))
         }
         [_, _] => Err(NativeError::WrongParameterType),
         _ => Err(NativeError::WrongParameterCount(2)),
